@@ -233,6 +233,67 @@ Section Runs.
     - intros k e H. rewrite nth_repeat_skip in H. discriminate.
     - unfold prevs, trails. cbn [length]. rewrite trails_from_length. lia.
   Qed.
+  (* the runs do not overlap: inside a run (behind its first field) the table holds nothing,
+     and nothing has been written at or behind the cursor *)
+  Definition separated (R : list ridx) (i : nat) : Prop :=
+    (forall j, (i <= j)%nat -> nth j R RSkip = RSkip) /\
+    (forall k e, nth k R RSkip = REnd e -> (e < i)%nat /\ forall j, (k < j <= e)%nat -> nth j R RSkip = RSkip).
+
+  Lemma runs_from_separated : forall L pv i index acc,
+    (index <= i)%nat -> (i + length L <= length acc)%nat ->
+    (index < i -> nth index acc RSkip = REnd (i - 1))%nat ->
+    separated acc i ->
+    separated (runs_from pred bpad bspan L pv i index acc) (i + length L).
+  Proof.
+    induction L as [|p L IH]; intros pv i index acc Hidx Hlen Hopen [D1 D2].
+    - cbn [runs_from length]. rewrite Nat.add_0_r. split; assumption.
+    - destruct pv as [|pt pv]; [cbn [runs_from length]; split; [intros j Hj; apply D1; lia|]|].
+      { intros k e Hk. destruct (D2 k e Hk) as [He Hin]. split; [lia|exact Hin]. }
+      cbn [runs_from length]. replace (i + S (length L))%nat with (S i + length L)%nat by lia.
+      destruct (pred p).
+      + set (index1 := if bpad && negb (Nat.eqb i 0) && (pt <? pal p) then i else index).
+        assert (Hi1' : index1 = i \/ (index1 = index /\ (index < i)%nat)).
+        { subst index1. destruct (_ && _ && _); [left; reflexivity|].
+          destruct (Nat.eq_dec index i); [left; assumption|right; split; [reflexivity|lia]]. }
+        assert (Hi1 : (index1 <= i)%nat) by (destruct Hi1' as [->|[-> ?]]; lia).
+        clearbody index1.
+        apply IH.
+        * destruct (bspan && negb (is_plain p)); lia.
+        * rewrite upd_length. cbn [length] in Hlen. lia.
+        * intros Hlt. destruct (bspan && negb (is_plain p)); [lia|].
+          replace (S i - 1)%nat with i by lia. apply upd_nth_same. cbn [length] in Hlen. lia.
+        * split.
+          -- intros j Hj. rewrite upd_nth_other by lia. apply D1. lia.
+          -- intros k e Hk. destruct (Nat.eq_dec k index1) as [E|E].
+             ++ subst k. rewrite upd_nth_same in Hk by (cbn [length] in Hlen; lia). injection Hk as <-.
+                split; [lia|]. intros j Hj. rewrite upd_nth_other by lia.
+                destruct Hi1' as [E1|[E1 E2]]; [lia|]. subst index1.
+                destruct (Nat.eq_dec j i) as [->|Hne]; [apply D1; lia|].
+                destruct (D2 _ _ (Hopen E2)) as [_ Hin]. apply Hin. lia.
+             ++ rewrite upd_nth_other in Hk by congruence. destruct (D2 k e Hk) as [He Hin].
+                split; [lia|]. intros j Hj. specialize (Hin j Hj).
+                rewrite upd_nth_other; [exact Hin|]. intros Ej. subst j.
+                destruct Hi1' as [E1|[E1 E2]]; [lia|]. subst index1. rewrite (Hopen E2) in Hin. discriminate.
+      + apply IH.
+        * lia.
+        * rewrite upd_length. cbn [length] in Hlen. lia.
+        * lia.
+        * split.
+          -- intros j Hj. rewrite upd_nth_other by lia. apply D1. lia.
+          -- intros k e Hk. destruct (Nat.eq_dec k i) as [E|E].
+             ++ subst k. rewrite upd_nth_same in Hk by (cbn [length] in Hlen; lia). discriminate.
+             ++ rewrite upd_nth_other in Hk by congruence. destruct (D2 k e Hk) as [He Hin].
+                split; [lia|]. intros j Hj. rewrite upd_nth_other by lia. apply Hin. exact Hj.
+  Qed.
+
+  Theorem runs_separated (L : list param) : separated (runs pred bpad bspan L) (length L).
+  Proof.
+    unfold runs.
+    pose proof (runs_from_separated L (prevs L) O O (repeat RSkip (length L))) as H. cbn [Nat.add] in H.
+    apply H; try lia.
+    - rewrite repeat_length. lia.
+    - split; [intros j _; apply nth_repeat_skip|]. intros k e Hk. rewrite nth_repeat_skip in Hk. discriminate.
+  Qed.
 End Runs.
 
 (* the four tables of the library *)
@@ -248,3 +309,11 @@ Proof. destruct (runs_structure eqm true true L) as (_ & H1 & H2). split; assump
 Corollary runs_lex_structure L :
   (forall j, (j < length L)%nat -> covered (runs_lex L) j) /\ sound lxm L (runs_lex L) (length L).
 Proof. destruct (runs_structure lxm true false L) as (_ & H1 & H2). split; assumption. Qed.
+
+(* two different runs of a table do not share a field, and no MANUAL field lies inside a run *)
+Corollary runs_swp_separated L : forall k e, nth k (runs_swp L) RSkip = REnd e ->
+  forall j, (k < j <= e)%nat -> nth j (runs_swp L) RSkip = RSkip.
+Proof. intros k e Hk. destruct (runs_separated tswp false false L) as [_ H]. exact (proj2 (H k e Hk)). Qed.
+Corollary runs_asg_separated L : forall k e, nth k (runs_asg L) RSkip = REnd e ->
+  forall j, (k < j <= e)%nat -> nth j (runs_asg L) RSkip = RSkip.
+Proof. intros k e Hk. destruct (runs_separated tasg false false L) as [_ H]. exact (proj2 (H k e Hk)). Qed.
